@@ -5,14 +5,18 @@ import PercevalModel.Model.C05
   C05 driver.  One request = one history of one long-lived object:
     {"fam": "backend", "kind": "naive|slap|slos|mps", "fixed": b, "ops": [op, …]}
     {"fam": "stepper" | "simulator", "fixed": b, "ops": [op, …]}
-    {"fam": "processor", "ops": [op, …]}
+    {"fam": "processor", "persist": b, "ops": [op, …]}   (persist = true: the code as it is)
   reply {"outs": [out, …], "abs": [abstraction of the caches after each step, …]}.
   backend op   = ["circ", m, uid] | ["in", [n…]] | ["mask", sid, len, n|null] | ["clear"] | ["cutoff", k]
                | ["q", "dist"|"allprob"|"evolve"|"amp"]
   stepper op   = ["circ", c] | ["params", pv] | ["filter", k] | ["evolve", inp]
   simulator op = ["circ", c] | ["heralds", h, n] | ["clear_heralds"] | ["other", o]
                | ["probs_svd", pnr, generic, [[st, nExt, nOwn], …]] | ["evolve", [[st, nExt, nOwn], …]]
-  processor op = ["comps", c] | ["add", c, sel] | ["noise", n] | ["input", i] | ["filter", k] | ["probs"]
+               | ["evolve_svd", [[passes_filter, [[st, nExt, nOwn], …]], …]] | ["probs", [st, …]] | ["direct", [st, …]]
+                 (keys in the order `_evolve_cache_with_n` walks them: sorted by n)
+  processor op = ["comps", c] | ["add", c] | ["det", d] | ["herald", h, n] | ["ps", p] | ["clear_ps"]
+               | ["noise", id, perfect] | ["mutate", id, perfect] | ["input", "bs"|"svd", i, n] | ["filter", k]
+               | ["probs", prec|null]
   out          = "ok" | "exc:<class>" | "stale" | {"res": …}
 -/
 open Lean PM PM.Proto PM.C05
@@ -145,6 +149,11 @@ def parseKeys (j : Json) : Except String (List SiKey) := do
     | [a, b, c] => return (a, b, c)
     | _ => throw "bad key"
 
+def parseGroups (j : Json) : Except String (List (Bool × List SiKey)) := do
+  (← j.getArr?).toList.mapM fun g => do
+    let a ← g.getArr?
+    return (← argBool a 0, ← parseKeys (← arg a 1))
+
 def parseOpSi (j : Json) : Except String SiOp := do
   let (t, a) ← tag j
   match t with
@@ -154,19 +163,26 @@ def parseOpSi (j : Json) : Except String SiOp := do
   | "other" => return .setOther (← argNat a 1)
   | "probs_svd" => return .probsSvd (← argBool a 1) (← argBool a 2) (← parseKeys (← arg a 3))
   | "evolve" => return .evolve (← parseKeys (← arg a 1))
+  | "evolve_svd" => return .evolveSvd (← parseGroups (← arg a 1))
+  | "probs" => return .probs (← natList (← arg a 1))
+  | "direct" => return .direct (← natList (← arg a 1))
   | _ => throw s!"bad simulator op {t}"
+
+def partsJ (parts : List (Nat × Nat)) : Json := .arr (parts.map fun p => natsJ [p.1, p.2]).toArray
 
 def outSiJ : SiOut → Json
   | .ok => "ok"
   | .exc e => .str s!"exc:{e}"
   | .stale => "stale"
-  | .res parts h o =>
-    Json.mkObj [("res", .arr #[.arr (parts.map fun p => natsJ [p.1, p.2.1, p.2.2]).toArray, (h : Nat), (o : Nat)])]
+  | .res parts h o => Json.mkObj [("res", .arr #[partsJ parts, (h : Nat), (o : Nat)])]
+  | .raw parts => Json.mkObj [("res", .arr #[partsJ parts]), ("raw", .bool true)]
 
 def absSi (s : Si) : Json :=
   Json.mkObj [
     ("evolve", .arr ((sortLists (s.evolve.map fun e => [e.1.1, e.1.2])).map natsJ).toArray),
-    ("can_mask", .bool s.canMask)]
+    ("bare", natsJ (sortNat (s.bare.map (·.1)))),
+    ("can_mask", .bool s.canMask),
+    ("bmask", match s.bmask with | some (_, n) => (n : Nat) | none => .null)]
 
 def runSi (fixed : Bool) (ops : Array Json) : Except String Json := do
   let mut s := initSi
@@ -182,32 +198,49 @@ def runSi (fixed : Bool) (ops : Array Json) : Except String Json := do
 
 /-! processor -/
 
+def parseKindIn : String → Except String InKind
+  | "bs" => pure .bs | "svd" => pure .svd
+  | k => throw s!"bad input kind {k}"
+
 def parseOpPr (j : Json) : Except String PrOp := do
   let (t, a) ← tag j
   match t with
   | "comps" => return .setComps (← argNat a 1)
-  | "add" => return .addComp (← argNat a 1) (← argNat a 2)
-  | "noise" => return .setNoise (← argNat a 1)
-  | "input" => return .withInput (← argNat a 1)
+  | "add" => return .addComp (← argNat a 1)
+  | "det" => return .addDet (← argNat a 1)
+  | "herald" => return .addHerald (← argNat a 1) (← argNat a 2)
+  | "ps" => return .setPs (← argNat a 1)
+  | "clear_ps" => return .clearPs
+  | "noise" => return .setNoise (← argNat a 1, ← argBool a 2)
+  | "mutate" => return .mutateNoise (← argNat a 1, ← argBool a 2)
+  | "input" => return .withInput (← parseKindIn (← (← arg a 1).getStr?)) (← argNat a 2) (← argNat a 3)
   | "filter" => return .setFilter (← argNat a 1)
-  | "probs" => return .probs
+  | "probs" => return .probs (← argOptNat a 1)
   | _ => throw s!"bad processor op {t}"
 
 def outPrJ : PrOut → Json
   | .ok => "ok"
   | .exc e => .str s!"exc:{e}"
-  | .res c sel n i f => Json.mkObj [("res", .arr #[(c : Nat), (sel : Nat), (n : Nat), (i : Nat), (f : Nat)])]
+  | .res r => Json.mkObj [("res", Json.mkObj [
+      ("comps", (r.comps : Nat)), ("her", (r.her : Nat)), ("ps", (r.ps : Nat)), ("det", (r.det : Nat)),
+      ("phase", (r.phase : Nat)), ("src", optNat r.src),
+      ("kind", match r.kind with | .bs => "bs" | .svd => "svd"),
+      ("inp", (r.inp : Nat)), ("her_in", (r.herIn : Nat)), ("filt", (r.filt : Nat)), ("prec", optNat r.prec)])]
 
-def runPr (ops : Array Json) : Except String Json := do
+def absPr (s : Pr) : Json :=
+  Json.mkObj [("sim", .bool s.sim.isSome), ("inputs_map", .bool s.inputsMap.isSome), ("filt", optNat s.filt),
+    ("prec_set", .bool s.precSet), ("dirty", .bool (s.held != s.noise)), ("auto", .bool s.auto)]
+
+def runPr (persist : Bool) (ops : Array Json) : Except String Json := do
   let mut s := initPr
   let mut outs : Array Json := #[]
   let mut abs : Array Json := #[]
   for j in ops do
     let op ← parseOpPr j
-    let (s', o) := stepPr s op
+    let (s', o) := stepPr persist s op
     s := s'
     outs := outs.push (outPrJ o)
-    abs := abs.push (Json.mkObj [("sim", .bool s.sim.isSome), ("inputs_map", .bool s.inputsMap.isSome)])
+    abs := abs.push (absPr s)
   return Json.mkObj [("outs", .arr outs), ("abs", .arr abs)]
 
 def handleE (j : Json) : Except String Json := do
@@ -217,7 +250,7 @@ def handleE (j : Json) : Except String Json := do
   | "backend" => runB (← boolOf j "fixed") (← parseKind (← strOf j "kind")) ops
   | "stepper" => runSt (← boolOf j "fixed") ops
   | "simulator" => runSi (← boolOf j "fixed") ops
-  | "processor" => runPr ops
+  | "processor" => runPr (← boolOf j "persist") ops
   | f => throw s!"bad family {f}"
 
 def handle (j : Json) : Json :=
